@@ -132,3 +132,38 @@ Theorem C07_caller_call_over_copy : forall beh n snap s log s1 log1 alive,
   (alive = false -> exists k, (k < length snap)%nat /\ log1 = all_entries n (firstn (S k) snap) ++ log).
 Proof. exact caller_call_over_copy. Qed.
 Print Assumptions C07_caller_call_over_copy.
+
+(* ---- dispatch is a function of the header's (port, channel) only: payloads *)
+(* A received packet is (header byte, payload).  Dispatch does not look at the payload: same result for every payload,
+   the empty one included (a link's keep-alive 0xFF/0xF3 with no data is dispatched like any other packet). *)
+Theorem C07_dispatch_independent_of_payload : forall beh n h p p' s log,
+  dispatch_pk beh n (h, p) s log = dispatch_pk beh n (h, p') s log.
+Proof. exact dispatch_payload_independent. Qed.
+Print Assumptions C07_dispatch_independent_of_payload.
+
+Theorem C07_run_independent_of_payloads : forall beh n pks pks' s log,
+  map fst pks = map fst pks' -> run_pk beh n pks s log = run_pk beh n pks' s log.
+Proof. exact run_payload_independent. Qed.
+Print Assumptions C07_run_independent_of_payloads.
+
+(* For every one of the 256 header bytes and EVERY payload: a registration (not added/removed by the all-packet
+   callbacks during this dispatch) is called exactly as often as it is registered — once, for distinct registrations —
+   if its masked port and channel equal the header's fields, and never otherwise. *)
+Theorem C07_every_header_every_payload_exactly_once : forall beh n h payload s log s' log' r,
+  0 <= h < 256 ->
+  untouched_by_all beh n s log r ->
+  dispatch_pk beh n (h, payload) s log = (s', log', true) ->
+  exists ports,
+    log' = port_entries n ports ++ all_entries n (alls s) ++ log /\
+    count_occ reg_eq_dec ports r =
+      if (r_port r =? Z.land (h / 16) (r_pmask r)) && (r_chan r =? Z.land (h mod 4) (r_cmask r))
+      then count_occ reg_eq_dec (cbs s) r else 0%nat.
+Proof. exact every_header_every_payload. Qed.
+Print Assumptions C07_every_header_every_payload_exactly_once.
+
+(* All 256 headers (complete sweep in the kernel) against the registration kinds of the API: the port callback of the
+   header's port, the exact header callback with default masks, the wildcard, the channel-only and the port-only
+   masks match; the port callback of another port and the exact callback of another channel do not. *)
+Theorem C07_registration_kinds_all_headers : forall h c, 0 <= h < 256 -> kinds_match h c = true.
+Proof. exact kinds_match_header. Qed.
+Print Assumptions C07_registration_kinds_all_headers.
